@@ -139,7 +139,8 @@ func c09Entries() []c09Entry {
 		{name: "Frequency.UnmarshalJSON", text: true, call: func(r *core.RNG, b []byte) error { var h backend.Frequency; return h.UnmarshalJSON(b) }},
 		{name: "Percentage.UnmarshalJSON", text: true, call: func(r *core.RNG, b []byte) error { var h backend.Percentage; return h.UnmarshalJSON(b) }},
 		{name: "KeyEnvelope.Unwrap", call: func(r *core.RNG, b []byte) error {
-			_, err := backend.KeyEnvelope{KEKLabel: "x", AESKey: backend.HEXBytes(b)}.Unwrap(make([]byte, 16))
+			env := backend.KeyEnvelope{KEKLabel: "x", AESKey: backend.HEXBytes(b)}
+			_, err := env.Unwrap(make([]byte, 16))
 			return err
 		}},
 	}
